@@ -5,7 +5,7 @@ model `Rainflow.rainflow1` (core Lean only). -/
 set_option linter.unusedSectionVars false
 set_option linter.unusedVariables false
 namespace PyYetiVerif.RainflowGen
-open PyYetiVerif.RainflowImp PyYetiVerif.Generated.PyRain PyYetiVerif.Rainflow
+open PyYetiVerif.RainflowImp PyYetiVerif.Generated.PyRain PyYetiVerif.Rainflow PyYetiVerif.RainflowEntry
 
 variable {α : Type} [Ops α]
 
@@ -179,11 +179,6 @@ theorem while1_sim (habs : ∀ a b : α, Ops.abs (a - b) = absd a b) (peaks : Ar
       refine ⟨s, ?_, by simpa using hR⟩
       simp [whileLoop, hc]
 
-theorem reduce1_nonempty (st : List α) (h : st ≠ []) : (reduce1 st).1 ≠ [] := by
-  fun_induction reduce1 st with
-  | case4 c b a r rest h res ih => simpa [res] using ih
-  | _ => simp_all
-
 /-- one pass of `for k in range(L)`: push `peaks[k]`, then the while loop -/
 theorem for1_1_sim (habs : ∀ a b : α, Ops.abs (a - b) = absd a b) (pts : List α) (k : Nat)
     (hk : k < pts.length) (fuel : Nat) (hf : pts.length ≤ fuel)
@@ -265,9 +260,6 @@ theorem for1_2_sim (habs : ∀ a b : α, Ops.abs (a - b) = absd a b) (peaks : Ar
     rw [hrl] at this
     simpa [rfRow] using this
 
-/-- the rows of the code's table for the model's rows -/
-def rfTable (rows : List (α × α × Bool)) : List (List α) := rows.map rfRow
-
 theorem finish1_not_full (l : List α) : (finish1 l).filter (·.2.2) = [] := by
   fun_induction finish1 l with
   | case1 a b rest ih => simp [ih]
@@ -291,7 +283,7 @@ theorem tail1 (habs : ∀ a b : α, Ops.abs (a - b) = absd a b)
         (forRange s.j (rainflow1_for2_body fuel (Arr.ofList pts) (pts.length : Int))
           { s with A := some t29 }).bind
             fun s => s.rf.take ((pts.length : Int) - s.fullcyclesp1)).bind Arr2.toRows
-      = some (rfTable (PyYetiVerif.Rainflow.rainflow1 pts)) := by
+      = some ((PyYetiVerif.Rainflow.rainflow1 pts).map rfRow) := by
   -- loop 1
   obtain ⟨s1, hloop1, hR1, hne1⟩ := forRange_inv
     (fun k s => Rel1 pts.length k s (fold1 pts k).1 (fold1 pts k).2 ∧ (0 < k → (fold1 pts k).1 ≠ []))
@@ -338,14 +330,14 @@ theorem tail1 (habs : ∀ a b : α, Ops.abs (a - b) = absd a b)
   have hstop : (pts.length : Int) - s2.fullcyclesp1 = (((rowsk.map rfRow).length : Nat) : Int) := by
     rw [hf2, hfull]; simp [hlenk]; omega
   rw [hstop, htab.take_toRows (by simp [hlenk]; omega) (by intro r hr; obtain ⟨x, _, rfl⟩ := List.mem_map.mp hr; simp [rfRow])]
-  rw [happ, hmodel, rfTable]
+  rw [happ, hmodel]
 
 /-- **the generated `_rainflow1` computes the model's table** (and never fails: no index out of
 range, no unwritten cell read or returned, fuel `L` suffices) -/
 theorem generated_rainflow1_eq_model (habs : ∀ a b : α, Ops.abs (a - b) = absd a b)
     (pts : List α) (h1 : 1 ≤ pts.length) (fuel : Nat) (hf : pts.length ≤ fuel) :
     (PyYetiVerif.Generated.PyRain.rainflow1 fuel (Arr.ofList pts) (pts.length : Int)).bind Arr2.toRows
-      = some (rfTable (PyYetiVerif.Rainflow.rainflow1 pts)) := by
+      = some ((PyYetiVerif.Rainflow.rainflow1 pts).map rfRow) := by
   unfold PyYetiVerif.Generated.PyRain.rainflow1
   have e3 : ((pts.length : Nat) : Int) - 1 = ((pts.length - 1 : Nat) : Int) := by omega
   simp only [Option.bind_eq_bind, Arr.empty_natCast, Option.bind_some, e3,
